@@ -144,7 +144,7 @@ func C18(tier string) {
 			need := int64(c.Info.Need)
 			for _, l := range []*loaderFn{loaderFor(c.Info.Format), &loaders[3]} {
 				// the file truncated just after the last needed structure gives the same result
-				whole, _ := load(l, &envx.Src{Data: c.Data, Tail: int64(tail), Uniform: 1 << 30})
+				whole, _ := load(l, &envx.Src{Data: c.Data, Tail: int64(minI(tail, 2<<20)), Uniform: 1 << 30})
 				cut, _ := load(l, bytes.NewReader(c.Data[:need]))
 				st.Executions += 2
 				if !whole.equal(cut) {
@@ -161,7 +161,7 @@ func C18(tier string) {
 						r.Violate("over-read/"+l.Name, fmt.Sprintf("%s.Load of %s (tail %d): pulled %d bytes from the source; the last needed structure ends at %d, so at most %d may be pulled [schedule %s]", l.Name, c.Name, tail, src.Delivered, need, need+65536, sched),
 							map[string]interface{}{"file": c.Name, "tail": tail, "need": need, "loader": l.Name, "delivered": src.Delivered, "schedule": sched}, nil)
 					}
-					if !o.equal(whole) {
+					if !src.CutOff && !o.equal(whole) {
 						r.Violate("schedule-differs/"+l.Name, fmt.Sprintf("%s.Load of %s (tail %d): [%s] under schedule %s, [%s] all at once", l.Name, c.Name, tail, o, sched, whole), nil, nil)
 					}
 					if sampled.Add(1) <= 4 {
@@ -173,14 +173,14 @@ func C18(tier string) {
 						if sz == 1 && need > 150000 {
 							continue
 						}
-						src := &envx.Src{Data: c.Data, Tail: int64(tail), Uniform: sz, UniformEOF: eof}
+						src := &envx.Src{Data: c.Data, Tail: int64(tail), Uniform: sz, UniformEOF: eof, MaxDeliver: need + 1<<20}
 						o, _ := load(l, src)
 						st.Executions++
 						check(src, o, fmt.Sprintf("uniform %d eof-with-data=%v", sz, eof))
 					}
 				}
 				envx.Explore(bound, func(prefix []int) (*envx.Src, string) {
-					src := &envx.Src{Data: c.Data, Tail: int64(tail), Alpha: envx.Alphabet{Shorts: true, EOFs: true}, Prefix: prefix, MaxTrace: 64}
+					src := &envx.Src{Data: c.Data, Tail: int64(tail), Alpha: envx.Alphabet{Shorts: true, EOFs: true}, Prefix: prefix, MaxTrace: 64, MaxDeliver: need + 1<<20}
 					o, _ := load(l, src)
 					check(src, o, envx.TraceString(src.Trace))
 					return src, o.String()
@@ -212,7 +212,7 @@ func C18(tier string) {
 							la, lb = &loaders[3], &loaders[3]
 						}
 						_, _ = load(la, &envx.Src{Data: files[i].Data, Tail: 1 << 20, Uniform: 1 << 30})
-						src := &envx.Src{Data: files[j].Data, Tail: 1 << 20, Uniform: 1 << 30}
+						src := &envx.Src{Data: files[j].Data, Tail: 1 << 20, Uniform: 1 << 30, MaxDeliver: int64(files[j].Info.Need) + 1<<20}
 						o, _ := load(lb, src)
 						execs += 2
 						need := int64(files[j].Info.Need)
